@@ -31,6 +31,7 @@ type mwCase struct {
 	ReqAction  string `json:"reqAction"`
 	RespAccess bool   `json:"respAccess"`
 	RespAction string `json:"respAction"`
+	Ctl        string `json:"ctl"`
 	Body       int    `json:"body"`
 	Known      bool   `json:"known"`
 	Script     []mwOp `json:"script"`
@@ -56,6 +57,12 @@ func mwDirectives(c *mwCase) string {
 	}
 	s := fmt.Sprintf("SecRuleEngine On\nSecRequestBodyAccess %s\nSecRequestBodyLimit 8\nSecRequestBodyInMemoryLimit 8\nSecRequestBodyLimitAction %s\nSecResponseBodyAccess %s\nSecResponseBodyLimit 8\nSecResponseBodyLimitAction %s\nSecResponseBodyMimeType text/plain\n",
 		onoff(c.ReqAccess), c.ReqAction, onoff(c.RespAccess), c.RespAction)
+	switch c.Ctl {
+	case "reqOn1":
+		s += "SecAction \"id:3,phase:1,pass,nolog,ctl:requestBodyAccess=On\"\n"
+	case "respOn3":
+		s += "SecAction \"id:2,phase:3,pass,nolog,ctl:responseBodyAccess=On\"\n"
+	}
 	if c.Deny > 0 {
 		s += fmt.Sprintf("SecAction \"id:1,phase:%d,deny,status:403\"\n", c.Deny)
 	}
@@ -98,7 +105,7 @@ func scriptString(s []mwOp) string {
 
 // C18: HTTP middleware blocks completely and otherwise passes traffic through intact.
 func C18(run *vf.Run) {
-	run.Rule = "Mw.tla gives, for every case (unconditional deny in phase 1-4 or none x request/response body access x limit actions x request body size below / at / above the limit x announced or chunked length x handler script of ReadBody / WriteHeader(s) / Write(k) / ReadFrom(k) / Flush operations incl. 201, 404, 500, 204, 304, writes straddling the response limit), what the wrapped handler and the client may see; TLC enumerates the table checking BlockedNeverReachesHandler, BlockedResponseLeaksNothing, PassThroughIsIdentity; every case is run against a real net/http server (httptest) wrapped by the middleware built from /repo, with a scripted handler, and the handler-invoked flag, the bytes the handler read, the status, the pass-through header and the body bytes the client received are compared. Non-trivial = case in which something is blocked or a body travels"
+	run.Rule = "Mw.tla gives, for every case (unconditional deny in phase 1-4 or none x request/response body access (configured, or switched on at run time by ctl:requestBodyAccess in phase 1 / ctl:responseBodyAccess in phase 3) x limit actions x request body size below / at / above the limit x announced or chunked length x handler script of ReadBody / WriteHeader(s) / Write(k) / ReadFrom(k) / Flush operations incl. 201, 404, 500, 204, 304, writes straddling the response limit), what the wrapped handler and the client may see; TLC enumerates the table checking BlockedNeverReachesHandler, BlockedResponseLeaksNothing, PassThroughIsIdentity; every case is run against a real net/http server (httptest) wrapped by the middleware built from /repo, with a scripted handler, and the handler-invoked flag, the bytes the handler read, the status, the pass-through header and the body bytes the client received are compared. Non-trivial = case in which something is blocked or a body travels"
 	run.Exhaustive = true
 	run.Assume("only deny is asserted for blocked statuses (drop / redirect status mapping is left open)")
 	run.Assume("the handler always starts a response (a handler that never touches the ResponseWriter is generated only without rules)")
